@@ -282,11 +282,70 @@ def many_channel_cases(draw):
     return g
 
 
+@st.composite
+def large_stride_cases(draw):
+    """strides of 40-170 whose multiples hit the last window exactly: the window count is floor(span/stride)+1 in
+    exact integer arithmetic, whatever floating-point shortcut computes it"""
+    s = draw(st.sampled_from([41, 49, 49, 98, 103, 107, 161, 64, 127]))
+    m = draw(st.integers(1, 4))
+    k = draw(st.integers(1, 3))
+    d = draw(st.integers(1, 2))
+    p = draw(st.integers(0, 1))
+    span = m * s + draw(st.sampled_from([0, 0, 0, -1, 1]))
+    L = span + d * (k - 1) + 1 - 2 * p
+    a = {"L": max(L, d * (k - 1) + 1), "k": k, "s": s, "d": d, "p": p}
+    b = {"L": draw(st.integers(1, 2)), "k": 1, "s": 1, "d": 1, "p": 0}
+    if draw(st.booleans()):
+        a, b = b, a
+    g = {"N": 1, "C": 1, "H": a["L"], "W": b["L"], "k": [a["k"], b["k"]], "s": [a["s"], b["s"]], "d": [a["d"], b["d"]],
+         "p": [a["p"], b["p"]], "spell": {}, "pad_value": draw(st.integers(-5, 5)), "dtype": draw(st.sampled_from(["float64", "float32"])),
+         "layout": "C", "pow2": 0, "x_seed": draw(st.integers(0, 10 ** 6))}
+    g["y"] = draw(hnp.arrays(np.int8, (48,), elements=st.integers(-9, 9), fill=st.nothing())).tolist()
+    return g
+
+
+@st.composite
+def int64_cases(draw):
+    """integer images / column matrices near 2^58: every variant is pure data movement and integer addition, so all of
+    them - and the adjoint / fold(unfold) identities - are exact; a detour through float64 is not"""
+    a = draw(gen.axis_geom(kmax=3, smax=2, dmax=2, pmax=1, extra_max=2))
+    b = draw(gen.axis_geom(kmax=3, smax=2, dmax=2, pmax=1, extra_max=2))
+    return {"N": draw(st.integers(1, 2)), "C": draw(st.integers(1, 2)), "H": a["L"], "W": b["L"], "k": [a["k"], b["k"]], "s": [a["s"], b["s"]],
+            "d": [a["d"], b["d"]], "p": [a["p"], b["p"]], "seed": draw(st.integers(0, 10 ** 6)), "shift": draw(st.sampled_from([58, 57, 55, 60]))}
+
+
+def check_int64(g, rec):
+    N, C, H, W = g["N"], g["C"], g["H"], g["W"]
+    k, s, d, p = g["k"], g["s"], g["d"], g["p"]
+    K, S, D, P = tuple(k), tuple(s), tuple(d), tuple(p)
+    n = N * C * H * W
+    i = np.arange(n, dtype=np.int64)
+    big = np.int64(1) << np.int64(g["shift"])
+    x = (((i * 7 + g["seed"]) % 5 - 2) * big // 8 + ((i * 13 + g["seed"]) % 11 - 5)).reshape(N, C, H, W)      # k*2^55 + small odd offsets
+    rec.nontrivial(True)
+    cols = {}
+    for name, fn in (("im2col", ct.im2col), ("im2col_v2", ct.im2col_v2), ("im2col_fast", ct.im2col_fast)):
+        cols[name] = np.asarray(_call(name, fn, x, K, D, S, P, 0, as_unfold=True))
+        if cols[name].dtype != np.int64:
+            raise Violation("dtype", f"{name} of an int64 image returned {cols[name].dtype}; geometry={g}")
+    for name in ("im2col_v2", "im2col_fast"):
+        if not np.array_equal(cols[name], cols["im2col"]):
+            raise Violation("disagree", f"{name} != im2col on an int64 image; geometry={g}")
+    cnt = R.cover_count((N, C, H, W), k, d, s, p).astype(np.int64)
+    want = x * cnt[None, None]                                   # exact in int64 (|x| < 2^59, count <= 9)
+    for name, fn in (("col2im", ct.col2im), ("col2im_v2", ct.col2im_v2), ("col2im_fast", ct.col2im_fast)):
+        o = np.asarray(_call(name, fn, cols["im2col"], (N, C, H, W), K, D, S, P))
+        if o.shape != want.shape or not np.array_equal(o.astype(np.int64), want):
+            bad = np.argwhere(o.astype(np.int64) != want)[0].tolist() if o.shape == want.shape else None
+            raise Violation("value", f"{name}(im2col(x)) != x*count for an int64 image near 2^{g['shift']} (first difference at {bad}: "
+                                     f"{o[tuple(bad)] if bad else o.shape} vs {want[tuple(bad)] if bad else want.shape}); geometry={g}", region="int64")
+
+
 def check_long_side(g, rec):
     n = g["N"] * g["C"] * g["H"] * g["W"]
     i = np.arange(n, dtype=np.int64)
     g = dict(g, x=(((i * 7 + g["x_seed"]) * 2654435761 >> 7) % 19 - 9).tolist())
-    rec.tag("side_near_2^16" if max(g["H"], g["W"]) > 1000 else ("side_near_2^8" if max(g["H"], g["W"]) > 100 else
+    rec.tag("side_near_2^16" if max(g["H"], g["W"]) > 1000 else ("large_stride" if max(g["s"]) > 30 else "side_near_2^8" if max(g["H"], g["W"]) > 100 else
                                                                   ("channels_near_2^8" if g["C"] > 100 else "batch_near_2^8")))
     check_geom(g, rec)
     rec.nontrivial(True)
@@ -413,6 +472,8 @@ def subchecks():
     return [
         SubCheck("geom2d", check_geom, geom_cases, quick=300, thorough=700, shards_quick=8, shards_thorough=16),
         SubCheck("degenerate_views", check_geom, degenerate_view_cases, quick=300, thorough=3000, shards_quick=2, shards_thorough=4),
+        SubCheck("large_stride", check_long_side, large_stride_cases, quick=60, thorough=800, shards_quick=4, shards_thorough=8),
+        SubCheck("int64_exact", check_int64, int64_cases, quick=200, thorough=2000, shards_quick=2, shards_thorough=4),
         SubCheck("many_channels", check_long_side, many_channel_cases, quick=24, thorough=300, shards_quick=4, shards_thorough=8),
         SubCheck("long_side", check_long_side, long_side_cases, quick=48, thorough=600, shards_quick=4, shards_thorough=8),
         SubCheck("long_side_2^16", check_long_side, lambda: long_side_cases(big=True), quick=2, thorough=6, shards_quick=4,
